@@ -46,7 +46,8 @@ Inductive op :=
 | OCopyVK (dst i src j : N)
 | OCopyTicket (dst i src j : N)
 | OAdd3PWithTicket (s loc dkkey src j : N)   (* proper MAC extension; ticket copied from (src, j); VK seals TKey dkkey *)
-| OMintForTicket (dst src j key loc : N) (proof : bool). (* token whose key-id is the ticket of (src, j), signed with TKey key *)
+| OMintForTicket (dst src j key loc : N) (proof : bool) (* token whose key-id is the ticket of (src, j), signed with TKey key *)
+| OCopyVal (dst src : N).                    (* a by-value copy of the token OBJECT (cp := *m): same fields, its own "not yet encoded" flag *)
 
 Record st := mkSt { slots : list (N * token); fresh : N }.
 Definition st0 : st := mkSt [] 0.
@@ -304,6 +305,11 @@ Definition step (σ : st) (o : op) : st * obs :=
       | _ => (σ, [])
       end
     | _, _ => (σ, [])
+    end
+  | OCopyVal dst src =>
+    match lookup src sl with
+    | Some t => (upd dst t, [])
+    | None => (σ, [])
     end
   | OMintForTicket dst src j key loc proof =>
     match lookup src sl with
